@@ -1230,7 +1230,7 @@ int main(int argc, char **argv)
       }
     FnEmitter E(C, F);
     std::string n = F.getName().str();
-    bool builtin = (n == "_Znwm" || n == "_Znam" || n == "_ZdlPv" || n == "_ZdaPv" || n == "_ZdlPvm" || n == "_ZdaPvm" || n == "memcpy" || n == "memmove" || n == "memset" || n == "__cxa_allocate_exception" || n == "__cxa_free_exception" || n == "__cxa_throw" || n == "abort" || n == "malloc" || n == "free" || n == "strlen" || n == "memcmp" || n == "memchr");
+    bool builtin = (n == "_Znwm" || n == "_Znam" || n == "_ZdlPv" || n == "_ZdaPv" || n == "_ZdlPvm" || n == "_ZdaPvm" || n == "memcpy" || n == "memmove" || n == "memset" || n == "__cxa_allocate_exception" || n == "__cxa_free_exception" || n == "__cxa_throw" || n == "abort" || n == "malloc" || n == "free" || n == "strlen" || n == "memcmp" || n == "memchr" || n == "abs" || n == "labs" || n == "llabs" || n == "strcmp" || n == "strncmp" || n == "fmod" || n == "fmodf" || n == "fmodl" || n == "fabs" || n == "fabsf" || n == "sqrt" || n == "sqrtf" || n == "wmemcpy" || n == "wmemmove" || n == "wmemset" || n == "wcslen" || n == "wmemcmp" || n == "wmemchr");
     // symbol record
     {
       FnEmitter P(C, F);
